@@ -597,7 +597,8 @@ def print_format(ck, F):
     if b is None:
         return
     ok = False
-    for c in b.calls():
+    from lib import with_helpers
+    for c in [c for hb in with_helpers(F, b) for c in hb.calls()]:      # the formatting may sit in a helper next to the handler
         if c.callee.endswith("Argument::new_display") and "f64" in c.gargs:
             ok = True
         # `number.to_string()` is `<f64 as Display>` as well
